@@ -99,9 +99,9 @@ fn perms() -> Vec<[usize; 4]> {
 pub fn run(ctx: &Ctx) -> i32 {
     let spec = Spec {
         level: "exploration",
-        rule: "cases are go commands made of the four pairs wtime/btime/winc/binc in one of the 24 token orders (optionally followed by 'movestogo N'), with either side to move; the mover's (time, increment) range over hostile values (0, 1, around the 5 s reserve, hours) and for each the opponent's values and the order vary; the budget recorded by the hook must be identical across opponent values and orders, <= the mover's remaining time, and < it whenever any time remains. Distinct by (side to move, command text); all non-trivial",
+        rule: "cases are go commands made of the four pairs wtime/btime/winc/binc in one of the 24 token orders (optionally followed by 'movestogo N'), with either side to move; the mover's (time, increment) range over hostile values (0, 1, around the 5 s reserve, hours) and for each the opponent's values and the order vary; the budget recorded by the hook must be identical across opponent values and orders, <= the mover's remaining time, and < it whenever any time remains. Distinct by (side to move, command text); all non-trivial. End-to-end part: the real release binary is given extreme clocks (0..900 ms left, increments up to 10 s) in middlegames and the CPU time it consumes before answering must stay within the remaining time + 500 ms",
         assumptions: vec!["the budget observed is the Duration handed to find_best_move (hook in handle_go_command); that the search honours it is property C07".into()],
-        required: if ctx.replay.is_some() { vec![] } else { vec!["invariance_comparisons", "clock_zero", "clock_at_or_below_reserve", "clock_above_reserve", "increment_exceeds_remaining"] },
+        required: if ctx.replay.is_some() { vec![] } else { vec!["invariance_comparisons", "clock_zero", "clock_at_or_below_reserve", "clock_above_reserve", "increment_exceeds_remaining", "blackbox_go_with_extreme_clocks"] },
         exhaustive: false,
         extra: vec![],
     };
@@ -180,5 +180,86 @@ pub fn run(ctx: &Ctx) -> i32 {
         }
         st
     });
+    let mut total = total;
+    total.merge(c12_blackbox(ctx));
     finalize(ctx, spec, total)
+}
+
+/// End-to-end on the real release binary: with extreme clocks (little time left, large increment)
+/// the CPU time consumed between `go` and `bestmove` must stay within the mover's remaining time
+/// (plus a small constant) — CPU time never exceeds wall time for this single-threaded process.
+fn c12_blackbox(ctx: &Ctx) -> Stats {
+    use crate::bb;
+    use std::time::Duration;
+    let n = ctx.budget(16, 240);
+    let workers = ctx.workers.min(8);
+    parallel(workers, |w| {
+        let mut st = Stats::new();
+        let mut rng = Rng::new(ctx.seed, 1200 + w as u64);
+        let mut eng = match bb::Engine::spawn(&ctx.engine_bin) {
+            Ok(e) => e,
+            Err(e) => {
+                st.inconclusive.push(format!("cannot start the engine binary: {}", e));
+                return st;
+            }
+        };
+        for _ in 0..(n / workers as u64 + 1) {
+            if ctx.out_of_time() {
+                break;
+            }
+            let p = crate::gen::g_game_pos(&mut rng);
+            if p.legal_moves().is_empty() {
+                continue;
+            }
+            let black = p.stm == crate::oracle::BLACK;
+            let remaining = *rng.pick(&[0u64, 1, 40, 100, 300, 900]);
+            let inc = *rng.pick(&[0u64, 500, 2000, 10_000]);
+            let opp = *rng.pick(&[0u64, 1000, 60_000, 600_000]);
+            let opp_inc = *rng.pick(&[0u64, 5000]);
+            let (wt, wi, bt, bi) = if black { (opp, opp_inc, remaining, inc) } else { (remaining, inc, opp, opp_inc) };
+            let mut pairs = vec![format!("wtime {}", wt), format!("btime {}", bt), format!("winc {}", wi), format!("binc {}", bi)];
+            rng.shuffle(&mut pairs);
+            let go = format!("go {}", pairs.join(" "));
+            let script = vec![format!("position fen {}", p.to_fen()), go.clone()];
+            let case = J::obj(vec![("kind", J::s("blackbox")), ("commands", J::arr_s(script.clone())), ("side_to_move", J::s(if black { "black" } else { "white" }))]);
+            if eng.send(&script[0]).is_err() {
+                break;
+            }
+            let cpu0 = eng.cpu_ms();
+            let out = eng.command(&go, Duration::from_secs(30));
+            let used = eng.cpu_ms().saturating_sub(cpu0);
+            st.case(hash64(&(script.clone(), 12u8)), true);
+            st.bump("blackbox_go_with_extreme_clocks");
+            st.sample_tagged("blackbox", || case.clone());
+            st.maxi("max_cpu_ms_used_beyond_remaining_time", used.saturating_sub(remaining));
+            match out {
+                Ok(_) | Err(bb::Fail::Timeout) => {
+                    if used > remaining + 500 {
+                        st.violation(
+                            format!("C12:cpu-exceeds-clock:{}:{}", remaining, inc),
+                            format!("'{}' ({} to move, {} ms left): the engine consumed {} ms of CPU before answering", go, if black { "black" } else { "white" }, remaining, used),
+                            case,
+                        );
+                    } else if out.is_err() {
+                        st.inconclusive.push(format!("no answer to '{}' within the watchdog and too little CPU consumed to decide", go));
+                    }
+                    if out.is_err() {
+                        eng = match bb::Engine::spawn(&ctx.engine_bin) {
+                            Ok(e) => e,
+                            Err(_) => break,
+                        };
+                    }
+                }
+                Err(bb::Fail::Died(s)) => {
+                    st.inconclusive.push(format!("engine ended ({}) during '{}' — C03 judges that", s, go));
+                    eng = match bb::Engine::spawn(&ctx.engine_bin) {
+                        Ok(e) => e,
+                        Err(_) => break,
+                    };
+                }
+            }
+        }
+        eng.quit();
+        st
+    })
 }
